@@ -207,6 +207,44 @@ CLAIMED = {
             'operation: division by zero, sqrt of a negative); FieldMetadata.convert_in assumed identity on floats; a failed loop '
             'invariant is reported as a violation only when the native flights reproduce a broken rule, otherwise undecided',
             'contract-based deductive verification with loop invariants (AST->z3) + bounded native flights', 'DESIGN 2 C02'),
+    'C06': ('other',
+            'Deductive part on the real code: the unit conversion factors are mutually inverse over their exact literals; evaluate -> '
+            'evaluate_impl maps each flight phase to its ROCD sub-table and refuses foreign flight rules; PerformanceTable.interpolate '
+            'converts metres with the library factor, maps min / max to the extreme masses and builds one interpolator per phase '
+            'from that phase\'s sub-table; Interpolator.__init__ grid fill for any number of rows by loop invariant (every row\'s values at '
+            'the node of its flight level and mass; one-mass tables aligned with the sorted levels); Interpolator.__call__ for any '
+            'number of flight levels against the scipy interpn contract: own grid and table axes per output, tabulated value at every '
+            'node, between the cell\'s corner values inside, refusal outside; build_performance_table reproduces every PTF row. '
+            'Bounded part: generated tables (2..5 levels, 4 row orders) through PerformanceModel.from_data incl. holes and repeated '
+            'pairs; generated PTF texts through PTFData.load.',
+            'scipy.interpolate.interpn, pandas (unique, itertuples, sort_values, drop_duplicates) and sorted / list.index by assumed '
+            'contracts; floats as reals (an altitude whose flight level leaves the table by a few ulp of rounding is not part of the '
+            'claim); table validation (pandas) and PTF regex parsing only bounded; continuity follows from the interpn contract and is '
+            'not separately proved',
+            'contract-based deductive verification (AST->z3, loop invariant) + bounded table / PTF stand-ins', 'DESIGN 2 C06'),
+    'C04': ('other',
+            'Deductive part on the real code, paths of any length: the antimeridian-crossing segment is cut where its straight map line '
+            'meets +-pi, the two parts are measured by great-circle distance, the total is their sum and a valid divisor; the '
+            'crossing segment\'s integrated values are split L1/total and L2/total (adding up to the value), every other segment\'s '
+            'value goes to its part unchanged and in order; the result is the first part\'s pieces followed by the second part\'s with '
+            'their values. Bounded part: the geometric core (grid-line intersections, piece lengths, fractions) through the real '
+            'grid_trajectory against an exact piece-wise oracle: per segment the pieces add up to the value, never less and no more '
+            'than the great-circle excess of the pieces; whole path = its segments.',
+            'the vectorised core (_trajectory_intersection_points_and_cells_horizontal and the flatten / repeat / delete tail) is only '
+            'bounded: 4x4 quarter-cell lattice, 3..4 point paths with altitude / time axes, random segments on 1..7 x 1..7 grids, '
+            'antimeridian crossings on a global 4x8 grid; points on the outermost grid lines excluded; Geod and numpy by assumed '
+            'contracts; shapely replaced by a stub (not installed, unused by trajectory gridding)',
+            'contract-based deductive verification of the wrappers (AST->z3) + bounded oracle for the geometric core', 'DESIGN 2 C04/C05'),
+    'C05': ('other',
+            'Deductive part on the real code, paths of any length: crosses_dateline element-wise; the two parts of a crossing path '
+            '(which points; the crossing point on the segment\'s map line, on +-pi / -+pi, with the altitude, time and state values of '
+            'the segment\'s start point); each segment\'s altitude / time cell is its start point\'s (searchsorted contract); cell '
+            'coordinates gathered from the grid axes by the core\'s indices in path order; all output arrays of one common length, '
+            'with / without altitude and time axes, with and without a crossing. Bounded part: the geometric core against the exact '
+            'piece-wise oracle: the cells crossed in path order (closed cells), length shares, start-point state / altitude / time, '
+            'equal lengths, cells the path does not enter receive nothing.',
+            'as C04; the share of a crossing segment is relative to the sum of the great-circle lengths of its two parts',
+            'contract-based deductive verification of the wrappers (AST->z3) + bounded oracle for the geometric core', 'DESIGN 2 C04/C05'),
 }
 REASONS_TODO = 'check not built yet (work in progress; see DESIGN.md section 2)'
 
